@@ -30,6 +30,14 @@ theorem fact_rollback_reload_context : Facts.C08.rollbackReloadContexts = ["cont
 theorem fact_add_critical_section :
     Facts.C08.addMutexCalls = ["s.addMutex.Lock"] ∧ Facts.C08.addFirstAfterCommit = ["unlock"] ∧
     "unlock()" ∈ Facts.C08.addDefers := by decide
+/-- the steps of `Add`'s write function and of `dag.add`, in the order the model's `putFails` counts their store writes:
+    writePayload (1 put), save payload event, markPayloadEventSaved (1), graph.add (addSingle: clock index + transaction,
+    lc_high, head_ref when it changes, tx_num), save transaction event, updateState (IBLT leaf, XOR leaf) -/
+theorem fact_add_write_steps :
+    Facts.C08.addWriteSteps = ["s.graph.isPresent", "s.payloadStore.writePayload", "s.saveEvent", "markPayloadEventSaved",
+      "s.graph.add", "s.saveEvent", "s.updateState"] ∧
+    Facts.C08.dagAddSteps = ["d.getHighestClockValue", "d.addSingle", "d.setHighestClockValue", "d.setHead",
+      "d.getNumberOfTransactions", "d.setNumberOfTransactions"] := by decide
 /-- `state.Add` runs under the write lock with a rollback hook -/
 theorem fact_add_tx_options :
     "stoabs.OnRollback" ∈ Facts.C08.addTxOptions ∧ "stoabs.WithWriteLock" ∈ Facts.C08.addTxOptions := by decide
@@ -309,14 +317,19 @@ theorem rollback_restores {s : State NB} (r : Reachable s) (tx : Tx) (opt : AddO
             by_cases hsp : (opt.payload.isSome && opt.savePayloadEventFails) = true
             · simp [hsp]
             · simp only [hsp, Bool.false_eq_true, if_false]
+              by_cases hp0' : putFailsIn opt.putFails (if opt.payload.isSome then 1 else 0)
+                  ((if opt.payload.isSome then 1 else 0) + (if opt.payload.isSome then 1 else 0)) = true
+              · simp [hp0']
+              simp only [hp0', Bool.false_eq_true, if_false]
               cases s.disk.graphAdd tx with
               | err e => simp
               | panic e => simp
               | ok d =>
                 simp only []
-                generalize (if opt.payload.isSome then 1 else 0) + 4 +
+                generalize (if opt.payload.isSome then 1 else 0) + (if opt.payload.isSome then 1 else 0) + 4 +
                   (if (decide (tx.clock > s.disk.lcHigh) || tx.clock == 0) = true then 1 else 0) = ng
-                by_cases hp1 : putFailsIn opt.putFails (if opt.payload.isSome then 1 else 0) ng = true
+                by_cases hp1 : putFailsIn opt.putFails
+                    ((if opt.payload.isSome then 1 else 0) + (if opt.payload.isSome then 1 else 0)) ng = true
                 · simp [hp1]
                 by_cases hst : opt.saveTxEventFails = true
                 · simp [hp1, hst]
@@ -392,7 +405,7 @@ theorem partial_update_is_rolled_back {s : State NB} (r : Reachable s) (tx : Tx)
   exact ⟨h.2, o⟩
 
 /-- a store fault at the k-th `Put` of the write transaction, wherever k falls (payload, clock index, transaction,
-    metadata, IBLT leaf, XOR leaf — or beyond the last put, where nothing fails): the invariant holds afterwards, and if
+    payload-event mark, metadata, IBLT leaf, XOR leaf — or beyond the last put, where nothing fails): the invariant holds afterwards, and if
     an error is reported the disk is untouched and the observables are unchanged -/
 theorem store_fault_at_any_put {s : State NB} (r : Reachable s) (tx : Tx) (opt : AddOpts) (k : Nat)
     (_hk : opt.putFails = some k) :
